@@ -21,7 +21,22 @@ HasEmptyLit(g, n, fuel) ==
     [] n.op = "prod" -> fuel > 0 /\ HasEmptyLit(g, BodyOf(g, n.p), fuel - 1)
     [] n.op = "union" -> fuel > 0 /\ \E p \in Members(g, n.u) : HasEmptyLit(g, BodyOf(g, p), fuel - 1)
 
-RECURSIVE NullableWith(_, _, _)
+\* "!" (non-empty) demands a VALUE from its expression, not a consumed token.  YieldsWith: can the node match without consuming
+\* a token AND hand back a value then?  An empty literal does; a capture around anything that matches nothing does (capture.Parse
+\* returns the struct whenever its operand returned non-nil, even an empty list); an optional group passes on what its
+\* expression yields; a repetition of an expression that matches nothing makes no progress and is no match at all.
+RECURSIVE NullableWith(_, _, _), YieldsWith(_, _, _)
+YieldsWith(g, n, NP) ==
+  CASE n.op = "lit" -> IsEmptyLit(n)
+    [] n.op = "cap" -> NullableWith(g, n.kid, NP)
+    [] n.op = "seq" -> (\A i \in 1..Len(n.kids) : NullableWith(g, n.kids[i], NP)) /\ (\E i \in 1..Len(n.kids) : YieldsWith(g, n.kids[i], NP))
+    [] n.op = "alt" -> \E i \in 1..Len(n.kids) : NullableWith(g, n.kids[i], NP) /\ YieldsWith(g, n.kids[i], NP)
+    [] n.op = "grp" -> (IF n.mode \in {"once", "opt"} THEN YieldsWith(g, n.kid, NP)
+                        ELSE IF n.mode = "nonempty" THEN NullableWith(g, n.kid, NP) /\ YieldsWith(g, n.kid, NP)
+                        ELSE FALSE)
+    [] n.op = "prod" -> n.p \in NP
+    [] n.op = "union" -> Members(g, n.u) \cap NP # {}
+    [] OTHER -> FALSE
 NullableWith(g, n, NP) ==
   CASE n.op = "lit" -> IsEmptyLit(n)
     [] n.op \in {"ref", "neg", "user", "user2", "user3"} -> FALSE
@@ -29,7 +44,7 @@ NullableWith(g, n, NP) ==
     [] n.op = "seq" -> \A i \in 1..Len(n.kids) : NullableWith(g, n.kids[i], NP)
     [] n.op = "alt" -> \E i \in 1..Len(n.kids) : NullableWith(g, n.kids[i], NP)
     [] n.op = "grp" -> (IF n.mode = "nonempty"
-                        THEN NullableWith(g, n.kid, NP) /\ HasEmptyLit(g, n.kid, 4)   \* "!" needs a value: only "" gives one for free
+                        THEN NullableWith(g, n.kid, NP) /\ YieldsWith(g, n.kid, NP)   \* "!" needs a value
                         ELSE n.mode \in {"opt", "star"} \/ NullableWith(g, n.kid, NP))
     [] n.op = "cap" -> NullableWith(g, n.kid, NP)
     [] n.op = "prod" -> n.p \in NP
